@@ -323,6 +323,14 @@ static int EmitSpecial(const std::string &dir) {
 
 int main(int argc, char **argv) {
   for (int i = 1; i + 1 < argc; ++i) if (std::string(argv[i]) == "--emit-special") return EmitSpecial(argv[i + 1]);
+  for (int i = 1; i + 1 < argc; ++i) if (std::string(argv[i]) == "--file") {
+    // Debug / replay aid: decode one file under the monitors and print the outcome.
+    Base b{argv[i + 1], ReadFile(argv[i + 1]), kGeometry, 0};
+    Outcome oc;
+    RunDecode(b, b.bytes, 0, 0, true, true, &oc);
+    printf("ok=%d status=%s c03=[%s] points=%u faces=%u bad_alloc=%d max_request=%lld peak=%lld declared_sum=%lld\n", oc.ok, oc.status.c_str(), oc.c03.c_str(), oc.np, oc.nf, oc.bad_alloc, (long long)oc.max_request, (long long)oc.peak, (long long)oc.declared_sum);
+    return oc.c03.empty() ? 0 : 1;
+  }
   {
     vf::Args a = vf::ParseArgs(argc, argv);
     BuildBases(a);
